@@ -2,3 +2,5 @@
 import OapiVerif.Props.C15
 import OapiVerif.Props.C16
 import OapiVerif.Props.C14
+import OapiVerif.Props.C04
+import OapiVerif.Props.C05
